@@ -1,11 +1,19 @@
 """sv_engine.py — the part of the C03 / C12 checks that is common to both backends: run every design, let Coq replay
-the emitted module, classify what Coq reports.  See c03.py / c12.py for what is claimed."""
+the emitted module, classify what Coq reports.  See c03.py / c12.py for what is claimed.
+
+Classification of a disagreement (the verdict itself is always Coq's: `simulate` on the parsed text vs the observed
+trace).  To tell the KINDS of defect apart the harness re-runs Coq on repaired variants of the same text:
+  1. constant sub-expressions folded to the value python computes     -> <pid>:const-subexpr-narrowed:<op> /
+                                                                         <pid>:const-subexpr-unfolded-overflow:<op>
+  2. text re-read in svparse's lenient mode (missing parentheses restored) -> <pid>:precedence:<shape>
+  3. whatever still disagrees                                          -> <pid>:mismatch:<design>   (unique)
+A repair "explains" the first disagreement when it disappears or moves to another (cycle, port)."""
 from common import *
 import sv_common as sv, svparse, sv_gen, sched_common as sc
 import collections, signal
 
 class _Watchdog(Exception): pass
-def _alarm(signum, frame): raise _Watchdog('design did not finish simulating / translating within the watchdog (e.g. a while-loop in an update block)')
+def _alarm(signum, frame): raise _Watchdog()
 
 class Res:
   """outcome for one (design, backend)"""
@@ -13,13 +21,15 @@ class Res:
     s.d, s.backend = d, backend
     s.status = None       # rejected | unmodelled | syntax | portmap | ok | bad
     s.detail = ''; s.text = None; s.f = None; s.case = None; s.trace = None; s.ports = None; s.topname = None
-    s.exc = None; s.why = None
+    s.exc = None; s.why = None; s.tr = None; s.syntax = None; s.lenient = False
 
-def gen_designs(ctx, n, prefix='G'):
+def gen_designs(ctx, n, prefix='G', ys_safe_fraction=0.0):
   out = []
   for j in range(n):
     r = random.Random(ctx.rng.randrange(1 << 30))
-    g = sv_gen.Gen(r, f'{prefix}{j}', size=r.choice(['small', 'medium', 'medium', 'large']), uid=f'{prefix}{j}').build()
+    safe = r.random() < ys_safe_fraction
+    g = sv_gen.Gen(r, f'{prefix}{j}', size=r.choice(['small', 'medium', 'medium', 'large']), uid=f'{prefix}{j}', ys_safe=safe).build()
+    if safe: g.features.add('ys-safe')
     src = g.source()
     cls, _ = sc.load_source(ctx, src, g.name)
     out.append(sv.Design(g.name, cls, source=src, kind='gen', features=sorted(g.all_features())))
@@ -41,7 +51,7 @@ def prepare(ctx, d, backend, ncycles, seed, sim_cache):
   signal.signal(signal.SIGALRM, _alarm); signal.alarm(25)
   try:
     return _prepare(ctx, d, backend, ncycles, seed, sim_cache, r)
-  except _Watchdog as e:
+  except _Watchdog:
     r.status, r.detail = 'rejected', 'watchdog:timeout'
     return r
   finally:
@@ -64,21 +74,45 @@ def _prepare(ctx, d, backend, ncycles, seed, sim_cache, r):
     r.f = svparse.parse_file(r.text)
   except svparse.Unmodelled as e:
     r.status, r.detail = 'unmodelled', str(e); return r
+  except svparse.SelectOnExpression as e:
+    # not SystemVerilog; remembered as a violation, and the text is re-read leniently so that its behaviour is still checked
+    r.syntax = e
+    try:
+      r.f = svparse.parse_file(r.text, lenient=True); r.lenient = True
+    except (svparse.Unmodelled, svparse.SvSyntaxError) as e2:
+      r.status, r.detail, r.exc = 'syntax', str(e), e; return r
   except svparse.SvSyntaxError as e:
     r.status, r.detail, r.exc = 'syntax', str(e), e; return r
+  return finish_case(r, backend)
+
+def finish_case(r, backend):
   mod = r.f.module(r.topname)
   if mod is None:
     r.status, r.detail = 'portmap', f'no module named {r.topname} in the emitted text'; return r
   try:
-    tr = sv.trace_coq(r.f, mod, r.ports, r.trace, backend)
+    r.tr = sv.trace_coq(r.f, mod, r.ports, r.trace, backend)
+    want = sv.expected_port_names(r.f, mod, r.ports, backend)
+    have = {pn for _, (pn, t, dims) in mod['ports']}
+    extra = sorted(have - want - {'clk'})
+    if extra: raise sv.PortMapError(f'emitted module has ports that no port of the component maps to: {extra[:6]}')
   except sv.PortMapError as e:
     r.status, r.detail = 'portmap', str(e); return r
-  r.tr = tr
-  r.case = f'({r.f.coq()}, {r.f.intern.id(r.topname)}%positive, {tr})'
+  r.case = f'({r.f.coq()}, {r.f.intern.id(r.topname)}%positive, {r.tr})'
   r.status = 'ok'
   return r
 
-WHY_RE = re.compile(r'^\((true|false), (Agree|Mismatch (\d+) (\d+)%positive (.*?)|NoFixpoint (\d+) (\d+)), (\[.*\]), (\[.*\])\)$', re.S)
+def why_many(ctx, tag, cases, per_file=3, jobs=12):
+  """for every case (a Coq term of type file * ident * list cyc): [wellformed, outcome, collisions, undriven] as printed by Coq"""
+  chunks = [cases[i:i + per_file] for i in range(0, len(cases), per_file)]
+  def one(k):
+    defs = sv.SV_DEFS + '\n'.join(f'Definition cc{j} : file * ident * list cyc := {c}.' for j, c in enumerate(chunks[k]))
+    exprs = [f'{fn} cc{j}' for j in range(len(chunks[k])) for fn in ('why_wf', 'why_sim', 'why_col', 'why_und')]
+    o = ctx.coq_eval(f'{tag}{k}', sv.SV_IMPORTS, defs, exprs)
+    return [o[4 * j:4 * j + 4] for j in range(len(chunks[k]))]
+  from concurrent.futures import ThreadPoolExecutor
+  with ThreadPoolExecutor(max_workers=jobs) as ex:
+    outs = list(ex.map(one, range(len(chunks))))
+  return [o for c in outs for o in c]
 
 def evaluate(ctx, results, tag):
   """Coq decides; results with status ok become ok/bad, with r.why filled for the bad ones"""
@@ -87,45 +121,221 @@ def evaluate(ctx, results, tag):
   bad = ctx.coq_bad_indices(tag, sv.SV_IMPORTS, sv.SV_DEFS, 'file * ident * list cyc', [r.case for r in live], 'case_ok c', shard=5, jobs=14)
   for i in bad: live[i].status = 'bad'
   badr = [live[i] for i in bad]
-  for k in range(0, len(badr), 6):
-    chunk = badr[k:k + 6]
-    outs = ctx.coq_eval(tag + 'why', sv.SV_IMPORTS, sv.SV_DEFS, [f'case_why {r.case}' for r in chunk])
-    for r, o in zip(chunk, outs): r.why = o
+  for r, o in zip(badr, why_many(ctx, tag + 'why', [r.case for r in badr])): r.why = o
 
-def parse_why(r):
-  """-> dict(wellformed, kind, cycle, port, model, collisions, undriven)"""
-  w = r.why or ''
-  m = WHY_RE.match(w.strip())
-  out = {'raw': w[:600], 'wellformed': None, 'kind': 'unparsed'}
+SIM_RE = re.compile(r'^(Agree|Mismatch (\d+) (\d+)%positive (.*)|NoFixpoint (\d+) (\d+))$', re.S)
+def parse_why_text(f, w):
+  """-> dict(wellformed, kind, cycle, port, model, collisions, undriven); w = the four printed values"""
+  out = {'raw': ' | '.join(w or [])[:600], 'wellformed': None, 'kind': 'unparsed'}
+  if not w or len(w) != 4: return out
+  m = SIM_RE.match(w[1].strip())
   if not m: return out
-  out['wellformed'] = m.group(1) == 'true'
-  if m.group(2) == 'Agree': out['kind'] = 'agree'
-  elif m.group(2).startswith('Mismatch'):
-    out.update(kind='mismatch', cycle=int(m.group(3)), port=r.f.intern.name(int(m.group(4))), model=m.group(5))
-  else: out.update(kind='nofixpoint', cycle=int(m.group(6)), phase=int(m.group(7)))
-  names = lambda txt: re.sub(r'(\d+)%positive', lambda mm: r.f.intern.name(int(mm.group(1))), txt)
-  out['collisions'] = names(m.group(8)); out['undriven'] = names(m.group(9))
+  out['wellformed'] = w[0].strip() == 'true'
+  if m.group(1) == 'Agree': out['kind'] = 'agree'
+  elif m.group(1).startswith('Mismatch'):
+    out.update(kind='mismatch', cycle=int(m.group(2)), port=f.intern.name(int(m.group(3))), model=m.group(4))
+  else: out.update(kind='nofixpoint', cycle=int(m.group(5)), phase=int(m.group(6)))
+  names = lambda txt: re.sub(r'(\d+)%positive', lambda mm: f.intern.name(int(mm.group(1))), txt)
+  out['collisions'] = names(w[2].strip()); out['undriven'] = names(w[3].strip())
   return out
+def parse_why(r): return parse_why_text(r.f, r.why)
 
-def observed_at(r, cycle, port, backend):
+def observed_at(r, cycle, port, backend, f=None):
   """what pymtl3 produced for the emitted port `port` at `cycle` (for the replay file)"""
+  f = f or r.f
   ins, outs = r.trace[cycle]
-  mod = r.f.module(r.topname)
+  mod = f.module(r.topname)
   pv = sv.sv_port_values if backend == 'sv' else sv.ys_port_values
-  for n, v in pv(r.f, mod, r.ports, outs, False):
+  for n, v in pv(f, mod, r.ports, outs, False):
     if n == port: return v
   return None
 
-def try_repair(ctx, r, tag):
-  """candidate defect F4: does the disagreement vanish when the narrowed constant sub-expressions are folded?"""
-  hits, restore = sv.repair_file(r.f)
-  try:
-    if not hits: return None
-    case = f'({r.f.coq()}, {r.f.intern.id(r.topname)}%positive, {r.tr})'
-  finally:
-    restore()
-  o = ctx.coq_eval(tag + 'rep', sv.SV_IMPORTS, sv.SV_DEFS, [f"let '(F, top, tr) := {case} in agrees (simulate F top tr)"])
-  return hits, o[0].strip() == 'true'
+def emitted_lines(text, needle, limit=5):
+  return [l.strip()[:400] for l in text.splitlines() if needle in l and not l.strip().startswith('//')][:limit]
 
-def emitted_lines(text, needle, limit=4):
-  return [l.strip() for l in text.splitlines() if needle in l and not l.strip().startswith('//')][:limit]
+def moved(w_before, w_after):
+  """did the repair explain the first disagreement?"""
+  if w_after['kind'] == 'agree': return True
+  return w_after['kind'] == 'mismatch' and (w_after['cycle'], w_after['port']) != (w_before['cycle'], w_before['port'])
+
+def explain(ctx, bad, backend, tag):
+  """fills r.w0 (original), r.hits/r.w1 (constants folded), r.repairs/r.w2 (lenient re-read + constants folded)"""
+  for r in bad:
+    r.w0 = parse_why(r); r.hits = []; r.w1 = None; r.repairs = []; r.w2 = None; r.f2 = None
+  s1 = [r for r in bad if r.w0['kind'] == 'mismatch']
+  todo = []
+  for r in s1:
+    hits, restore = sv.repair_file(r.f)
+    try:
+      if hits:
+        r.hits = hits
+        todo.append((r, f'({r.f.coq()}, {r.f.intern.id(r.topname)}%positive, {r.tr})'))
+    finally: restore()
+  for (r, _), o in zip(todo, why_many(ctx, tag + 'r1', [c for _, c in todo])):
+    r.w1 = parse_why_text(r.f, o)
+  todo = []
+  for r in s1:
+    if r.w1 is not None and r.w1['kind'] == 'agree': continue
+    if r.lenient: continue
+    try:
+      f2 = svparse.parse_file(r.text, lenient=True)
+    except Exception: continue
+    if sv.repair_sext_element(f2): f2.repairs.append('sext-of-element')
+    if not f2.repairs: continue
+    r.f2 = f2; r.repairs = list(f2.repairs)
+    sv.repair_file(f2)     # constants folded as well (in place; f2 is only used here)
+    mod = f2.module(r.topname)
+    tr = sv.trace_coq(f2, mod, r.ports, r.trace, backend)
+    todo.append((r, f'({f2.coq()}, {f2.intern.id(r.topname)}%positive, {tr})'))
+  for (r, _), o in zip(todo, why_many(ctx, tag + 'r2', [c for _, c in todo])):
+    r.w2 = parse_why_text(r.f2, o)
+
+# ---------------------------------------------------------------------- violations
+PRECEDENCE = {'reduce-of-binop', 'sext-of-binop', 'sext-of-ifexp'}
+
+def replay_of(r, w, backend, f=None, note=None):
+  d = r.d
+  cyc, port = w['cycle'], w['port']
+  out = {'design': d.name, 'kind': d.kind, 'backend': backend, 'design_source': d.source, 'cycle': cyc, 'port': port,
+         'pymtl_value': observed_at(r, cyc, port, backend, f), 'emitted_text_value': w['model'], 'inputs_at_cycle': r.trace[cyc][0],
+         'inputs_all_cycles': [c[0] for c in r.trace[:cyc + 1]], 'emitted_lines': emitted_lines(r.text, port.split('__')[0] + ' ') + emitted_lines(r.text, port.split('__')[0] + '[')}
+  if note: out['note'] = note
+  return out
+
+def report_static(ctx, r, pid, backend):
+  """violations that do not need Coq: rejected / unmodelled / syntax / port map"""
+  d = r.d
+  base = {'design': d.name, 'kind': d.kind, 'backend': backend, 'design_source': d.source}
+  if r.syntax is not None:
+    det = str(r.syntax)
+    what = 'sext-of-trunc' if 'size cast' in det else ('sext-of-literal' if 'a literal' in det else 'sext-of-parenthesised')
+    ctx.violation(f'{pid}:syntax:select-on-expression:{what}',
+                  f'emitted text is not SystemVerilog: {det[:260]} (design {d.name}; IEEE 1800-2017 A.8.4: a select may only follow an identifier or a concatenation)',
+                  dict(base, parser_message=det, emitted_lines=emitted_lines(r.text, "'(", 8)))
+  if r.status == 'rejected':
+    ctx.hist['rejected:' + r.detail] = ctx.hist.get('rejected:' + r.detail, 0) + 1
+  elif r.status == 'unmodelled':
+    ctx.hist['unmodelled-construct'] = ctx.hist.get('unmodelled-construct', 0) + 1
+    ctx.extra.setdefault('unmodelled', []).append(f'{d.name}: {r.detail[:120]}')
+    if d.kind in ('gen', 'directed'):
+      ctx.violation(f'{pid}:generator-outside-subset:{d.name}', f'generated design {d.name} uses a construct svparse does not model: {r.detail[:200]}', base, found_input=False)
+  elif r.status == 'syntax':
+    ctx.violation(f'{pid}:syntax:{d.name}', f'emitted text of {d.name} does not fit the grammar of the emitted subset: {r.detail[:300]}', dict(base, parser_message=r.detail, emitted_text=r.text[-3000:]))
+  elif r.status == 'portmap':
+    ctx.violation(f'{pid}:portmap:{d.name}', f'{d.name}: emitted port list does not match the component: {r.detail[:300]}', dict(base, emitted_text=r.text[:3000]))
+
+def struct_forms(f):
+  """Yosys backend: a struct-typed signal S is emitted as a packed variable S plus variables S__<field>...; returns the
+  names of all variables of such families (scalar S with at least one declared S__x)"""
+  out = set()
+  for m in f.modules:
+    names = {pn: dims for _, (pn, t, dims) in m['ports']}
+    names.update({n: dims for (n, t, dims) in m['decls']})
+    bases = {n for n, dims in names.items() if not dims and any(o.startswith(n + '__') for o in names)}
+    for n in names:
+      if n in bases or any(n.startswith(b + '__') for b in bases): out.add(n)
+  return out
+
+def member_accesses(f):
+  """member accesses x.f in a text that declares no struct-typed variable at all (the Yosys backend flattens every struct:
+  `si3.f3` / `recv.msg` / `recv[0].msg` there are SystemVerilog-backend spellings that leaked through)"""
+  out = set()
+  for m in f.modules:
+    types = {pn: t for _, (pn, t, dims) in m['ports']}; types.update({n: t for (n, t, dims) in m['decls']})
+    def visit(e):
+      if e[0] == 'member':
+        x = e
+        while x[0] in ('member', 'index', 'range', 'plus'): x = x[1]
+        if x[0] == 'id' and (x[1] not in types or types[x[1]][0] != 'struct'): out.add(x[1])
+    for e in svparse.module_exprs(m): svparse.walk_exprs(e, visit)
+  return out
+
+def varnames(txt):
+  return set(re.findall(r'[A-Za-z_][A-Za-z_0-9$.]*', re.sub(r'K(Assign|Block|Input|Inst)\b', ' ', txt)))
+
+def class_key(r, pid, backend, symptom, w):
+  """stable key for a symptom: by design for the fixed design sets, by a signature of the emitted text for random designs"""
+  d = r.d
+  if d.kind != 'gen': return f'{pid}:{symptom}:{d.name}'
+  if backend == 'yosys':
+    forms = struct_forms(r.f)
+    if symptom == 'multi-driver' and varnames(re.sub(r'\d+', ' ', w.get('collisions', ''))) & forms: return f'{pid}:multi-driver:struct-form'
+    if symptom == 'undriven':
+      und = set(re.findall(r'[A-Za-z_][A-Za-z_0-9$.]*', w.get('undriven', '')))
+      mods = {m['name'] for m in r.f.modules}
+      if und - mods and (und - mods) <= forms: return f'{pid}:undriven:struct-form'
+    if symptom == 'not-wellformed' and member_accesses(r.f):
+      return f'{pid}:not-wellformed:unmangled-member-access'
+    if symptom == 'mismatch':
+      und = set(re.findall(r'[A-Za-z_][A-Za-z_0-9$.]*', r.w0.get('undriven', ''))) | varnames(re.sub(r'\d+', ' ', r.w0.get('collisions', '')))
+      if und & forms: return f'{pid}:struct-granularity:mismatch'
+  return f'{pid}:{symptom}:{d.name}'
+
+def report_bad(ctx, r, pid, backend):
+  d = r.d
+  w = r.w0
+  tags = [f[4:] for f in d.features if f.startswith('tag:')]
+  base = {'design': d.name, 'kind': d.kind, 'backend': backend, 'design_source': d.source, 'coq_says': w.get('raw')}
+  if w['kind'] == 'unparsed' or w['wellformed'] is False:
+    ctx.violation(class_key(r, pid, backend, 'not-wellformed', w), f'{d.name}: emitted text fails sv_wellformed (undeclared identifier / ill-typed select / instance mismatch): {w.get("raw", "")[:200]}', dict(base, emitted_text=r.text[:4000]))
+    return
+  if w.get('collisions', '[]') != '[]':
+    ctx.violation(class_key(r, pid, backend, 'multi-driver', w), f'{d.name}: a variable bit has more than one driver: {w["collisions"][:300]}', dict(base, collisions=w['collisions'], emitted_text=r.text[:6000]))
+  if w.get('undriven', '[]') != '[]' and d.kind == 'case':
+    # the catalogue contains components whose SOURCE leaves a port undriven; the translation is faithful there
+    ctx.hist['undriven-variable(in-source, test catalogue)'] = ctx.hist.get('undriven-variable(in-source, test catalogue)', 0) + 1
+  elif w.get('undriven', '[]') != '[]':
+    ctx.violation(class_key(r, pid, backend, 'undriven', w), f'{d.name}: a declared variable has a bit without any driver: {w["undriven"][:300]}', dict(base, undriven=w['undriven'], emitted_text=r.text[:6000]))
+  if w['kind'] == 'nofixpoint':
+    ctx.violation(f'{pid}:no-fixpoint:{d.name}', f'{d.name}: the emitted module did not settle (cycle {w["cycle"]}, phase {w["phase"]})', dict(base, emitted_text=r.text[:6000]), found_input=False)
+    return
+  if w['kind'] != 'mismatch': return
+  cur, curf, note = w, r.f, None
+  # 1. constants
+  if r.w1 is not None and moved(cur, r.w1):
+    ops, e, true_v, how = r.hits[0]
+    if 'tag:const-subexpr' in d.features: op = next((f[6:] for f in d.features if f.startswith('const:')), ops[-1])
+    else: op = ops[-1] if len(ops) == 1 else 'nested'
+    fam = 'const-subexpr-narrowed' if how == 'narrowed' else 'const-subexpr-unfolded-overflow'
+    ctx.violation(f'{pid}:{fam}:{op}',
+                  f'{d.name}: constant sub-expression emitted unfolded ' + ('with operands narrowed to the width of its folded value' if how == 'narrowed' else 'and overflowing the self-determined width of its operands') +
+                  f': `{sv.expr_text(e)}` (pymtl3 uses {true_v}); port {cur["port"]} at cycle {cur["cycle"]}: emitted text gives {cur["model"]}, pymtl3 gives {observed_at(r, cur["cycle"], cur["port"], backend)}; folding the constant removes this disagreement',
+                  dict(replay_of(r, cur, backend), differing_constant_subexpressions=[(o, sv.expr_text(x), v, h) for o, x, v, h in r.hits[:6]]))
+    ctx.hist['explained:constant-subexpression'] = ctx.hist.get('explained:constant-subexpression', 0) + 1
+    if r.w1['kind'] == 'agree': return
+    cur, note = r.w1, 'value computed on the text with the differing constant sub-expressions folded'
+  # 2. missing parentheses
+  if r.w2 is not None and moved(cur, r.w2):
+    for t in sorted(set(r.repairs)):
+      fam = 'precedence' if t in PRECEDENCE else ('sign-extension' if t == 'sext-of-element' else 'syntax:select-on-expression')
+      ctx.violation(f'{pid}:{fam}:{t}',
+                    f'{d.name}: ' + ('sign extension of an indexed multi-bit element replicates the whole element instead of its top bit' if t == 'sext-of-element' else f'operator expression emitted without parentheses ({t})') + f'; port {cur["port"]} at cycle {cur["cycle"]}: emitted text gives {cur["model"]}, pymtl3 gives {observed_at(r, cur["cycle"], cur["port"], backend, curf)}; '
+                    f're-reading the text with the intended grouping restored removes this disagreement; parser notes: {r.f2.notes[:2]}',
+                    dict(replay_of(r, cur, backend, curf, note), parser_notes=r.f2.notes[:6]))
+    ctx.hist['explained:missing-parentheses'] = ctx.hist.get('explained:missing-parentheses', 0) + 1
+    if r.w2['kind'] == 'agree': return
+    cur, curf, note = r.w2, r.f2, 'value computed on the text with constants folded and parentheses restored'
+  # 3. residue
+  tag = next((t for t in tags if t not in ('control', 'const-subexpr')), None)
+  hint = [f for f in d.features if f in ('sext-of-expr', 'reduce-of-expr', 'sext-of-element')]
+  key = f'{pid}:{tag}' if (tag and d.kind == 'directed') else class_key(r, pid, backend, 'mismatch', cur)
+  ctx.violation(key, f'{d.name}: output {cur["port"]} at cycle {cur["cycle"]}: emitted text gives {cur["model"]}, pymtl3 gives {observed_at(r, cur["cycle"], cur["port"], backend, curf)}' +
+                (f' [{tag}]' if tag else '') + (f' (design uses {hint})' if hint else '') + (f'; {note}' if note else ''), replay_of(r, cur, backend, curf, note))
+
+def run_backend(ctx, pid, backend, designs, ncyc, sim_cache, tagp=''):
+  results = []
+  for k, d in enumerate(designs):
+    results.append(prepare(ctx, d, backend, ncyc, ctx.seed + k, sim_cache))
+  for lo in range(0, len(results), 400):
+    evaluate(ctx, results[lo:lo + 400], f'{tagp}{backend}{lo}')
+  bad = [r for r in results if r.status == 'bad']
+  explain(ctx, bad, backend, f'{tagp}{backend}x')
+  for r in results:
+    d = r.d
+    if r.status in ('ok', 'bad'):
+      ctx.count((backend, d.name, sv.text_key(r.text)), True, cls=f'{backend}:{d.kind}:{"agree" if r.status == "ok" else "disagree"}')
+    else:
+      ctx.count((backend, d.name, r.status, r.detail[:40]), r.status in ('syntax', 'portmap'), cls=f'{backend}:{d.kind}:{r.status}')
+    report_static(ctx, r, pid, backend)
+    if r.status == 'bad': report_bad(ctx, r, pid, backend)
+  return results
